@@ -19,6 +19,11 @@
 (*                     matching candidates => that candidate; shared       *)
 (*                     minimum => the ambiguity error.  Ranks are an       *)
 (*                     INPUT of level A (whatever the tree reports).       *)
+(*                     Formula-independent additions (end of the module):  *)
+(*                     pattern subsumption (MoreGeneral), exact versus     *)
+(*                     converted scalar values (ExactOver), and "a         *)
+(*                     candidate whose parameters match is not rejected"   *)
+(*                     (RejFail).                                          *)
 (*                                                                         *)
 (* LEVEL B (implementation shaped; disagreement with the tree is DRIFT)    *)
 (*   MatchB            sequential bind-on-first-use / compare-afterwards   *)
